@@ -105,7 +105,7 @@ class VUnit:
             elif key == "opaqueblock":
                 self.opaque_blocks.append((kv["fn"], kv["opener"].strip(), kv["call"]))
             elif key == "opaque":
-                self.opaque.append((kv["fn"], kv["expr"], kv["call"]))
+                self.opaque.append((kv["fn"], kv["expr"], kv["call"], kv.get("all") == "yes"))
             elif key == "obligation":
                 head, _, meaning = rest.partition(":")
                 parts = head.split()
@@ -435,14 +435,16 @@ def compose(unit, outdir):
             body2 = body2[:off_ + 1] + "\n" + call + "\n" + body2[end_ - 1:]
         # E6: an expression Verus has no syntax for (iterator adapters, closures) is replaced, verbatim-matched up to white space,
         # by a call to an external function declared (with a trusted specification) in the spec file. What is dropped is listed.
-        for (fn_, expr, call) in unit.opaque:
+        for (fn_, expr, call, all_) in unit.opaque:
             if fn_ != key:
                 continue
             pat = r"\s*".join(re.escape(ch) for ch in re.sub(r"\s+", "", expr))
             ms = list(re.finditer(pat, body2))
-            if len(ms) != 1:
+            # `all=yes`: every occurrence (at least one) of the expression is replaced by the same call
+            if (len(ms) != 1 and not all_) or not ms:
                 raise Undecided(f"lost anchor: {len(ms)} occurrences of the opaque expression <<{expr[:60]}>> in fn {key}")
-            body2 = body2[:ms[0].start()] + call + body2[ms[0].end():]
+            for m_ in reversed(ms):
+                body2 = body2[:m_.start()] + call + body2[m_.end():]
         # E5 loops (insert from last to first so positions stay valid)
         lps = loops_in(body2)
         kws = loop_keywords_in(body2)
